@@ -490,6 +490,11 @@ class ClassType(Type, frozen=False, eq=False):
   def __hash__(self):
     return hash((self.__class__.__name__, self.name))
 
+  def _SortName(self):
+    # Sort like the NamedType this is the resolved form of, so that sorting
+    # (e.g. of union members) gives the same order before and after resolution.
+    return 'NamedType'
+
   def __str__(self):
     return str(self.cls.name) if self.cls else self.name
 
